@@ -1150,6 +1150,8 @@ func main() {
 		doGen()
 	case "pogs":
 		doPogs()
+	case "text":
+		doText()
 	}
 	tw.Flush()
 	tf.Close()
